@@ -15,35 +15,69 @@ Import ListNotations.
 Section CbCache.
 Variable P : Type.
 
-(** the get_page hook: address space and address in, region (start, size,
-    bytes) or failure out *)
+(** hook arguments and results: get_page maps (address space, address) to a
+    region (start, size, bytes) or failure; read_caps returns the mask of the
+    address spaces the implementation can read directly *)
 Definition PA : Type := (N * N)%type.
-Definition PR : Type := option (N * N * list byte).
+Inductive hres := HPage (r : option (N * N * list byte)) | HCaps (mask : N).
+Definition PR : Type := hres.
 
 Definition lstack := stack P PA PR.
 
 Inductive hop :=
 | HAdd (priv : P)              (* cb = addrxlat_ctx_add_cb(ctx); cb->priv = priv; nothing overridden *)
+| HAddCaps (priv : P) (mask : N)   (* ... and cb->read_caps = an implementation returning mask *)
 | HDel (pos : nat)             (* addrxlat_ctx_del_cb(ctx, record at position pos) *)
 | HRead (a_as a n : N)         (* a translation step that reads n bytes at (a_as, a) *)
 | HBury (a_as a : N).          (* bury_cache_buffer *)
 
 (** ctx->cb->get_page(ctx->cb, buf) *)
-Definition gp (s : lstack) (a_as a : N) : PR :=
+Definition gp (s : lstack) (a_as a : N) : option (N * N * list byte) :=
   match invoke P PA PR true s HGetPage (a_as, a) (S (length s)) with
-  | Done _ r => r
+  | Done _ (HPage r) => r
   | _ => None
   end.
+
+(** ctx->cb->read_caps(ctx->cb): asked by read32 / read64 for every single read *)
+Definition caps (s : lstack) : N :=
+  match invoke P PA PR true s HReadCaps (0%N, 0%N) (S (length s)) with
+  | Done _ (HCaps m) => m
+  | _ => 0%N
+  end.
+
+(** read32/read64: if (read_caps & ADDRXLAT_CAPS(addr->as)) read directly, else
+    convert the address to a readable space first (internal_op).  The model
+    has the two physical address spaces 0 (KPHYSADDR) and 1 (MACHPHYSADDR)
+    with identity maps between them, which is what harness/cb_drv.c installs:
+    the address is unchanged and the space becomes the other one if that is
+    readable; [None] = "No way to translate" *)
+Definition eff_as (mask a_as : N) : option N :=
+  if N.testbit mask a_as then Some a_as
+  else
+    let other := (1 - a_as)%N in
+    if (a_as <=? 1)%N && N.testbit mask other then Some other else None.
+
+Definition caps_layer (p : P) (mask : N) : layer P PA PR :=
+  {| l_priv := p;
+     l_hook := fun h => match h with
+                        | HReadCaps => Some (fun _ _ => HCaps mask)
+                        | _ => None
+                        end |}.
 
 Record hstate := { h_stack : lstack; h_cache : cache }.
 
 Definition hstep (st : hstate) (o : hop) : hstate * list event * option rres :=
   match o with
   | HAdd p => ({| h_stack := add_cb P PA PR p (h_stack st); h_cache := h_cache st |}, [], None)
+  | HAddCaps p m => ({| h_stack := caps_layer p m :: h_stack st; h_cache := h_cache st |}, [], None)
   | HDel i => ({| h_stack := del_cb P PA PR i (h_stack st); h_cache := h_cache st |}, [], None)
   | HRead a_as a n =>
-      let '(c', ev, r) := read (gp (h_stack st)) (h_cache st) a_as a n in
-      ({| h_stack := h_stack st; h_cache := c' |}, ev, Some r)
+      match eff_as (caps (h_stack st)) a_as with
+      | None => (st, [], Some RFail)
+      | Some as' =>
+          let '(c', ev, r) := read (gp (h_stack st)) (h_cache st) as' a n in
+          ({| h_stack := h_stack st; h_cache := c' |}, ev, Some r)
+      end
   | HBury a_as a =>
       ({| h_stack := h_stack st; h_cache := bury (h_cache st) a_as a |}, [], None)
   end.
@@ -57,22 +91,32 @@ Fixpoint hrun (st : hstate) (ops : list hop) : hstate * list event * list rres :
       (st2, ev1 ++ ev2, match r1 with Some r => r :: rs | None => rs end)
   end.
 
-(** the same history without the layer operations *)
-Fixpoint erase (ops : list hop) : list op :=
+(** the same history without the layer operations, for a context whose
+    read capabilities are [mask] throughout *)
+Fixpoint erase (mask : N) (ops : list hop) : list op :=
   match ops with
   | [] => []
-  | HRead a_as a n :: r => ORead a_as a n [] :: erase r
-  | HBury a_as a :: r => OBury a_as a :: erase r
-  | _ :: r => erase r
+  | HRead a_as a n :: r =>
+      match eff_as mask a_as with
+      | Some as' => ORead as' a n [] :: erase mask r
+      | None => erase mask r
+      end
+  | HBury a_as a :: r => OBury a_as a :: erase mask r
+  | _ :: r => erase mask r
   end.
 
-(** deletions only of layers that were added on top of the initial stack *)
-Fixpoint dels_ok (depth : nat) (ops : list hop) : bool :=
+(** only pass-through layers are added, deletions only of layers that were
+    added on top of the initial stack, every read is of a space that can be
+    read or converted under [mask] *)
+Fixpoint dels_ok (mask : N) (depth : nat) (ops : list hop) : bool :=
   match ops with
   | [] => true
-  | HAdd _ :: r => dels_ok (S depth) r
-  | HDel i :: r => Nat.ltb i depth && dels_ok (depth - 1) r
-  | _ :: r => dels_ok depth r
+  | HAdd _ :: r => dels_ok mask (S depth) r
+  | HAddCaps _ _ :: _ => false
+  | HDel i :: r => Nat.ltb i depth && dels_ok mask (depth - 1) r
+  | HRead a_as _ _ :: r =>
+      match eff_as mask a_as with Some _ => dels_ok mask depth r | None => false end
+  | HBury _ _ :: r => dels_ok mask depth r
   end.
 
 End CbCache.
@@ -81,7 +125,8 @@ End CbCache.
     harness/cb_drv.c serves; the check compares the two on probe addresses
     before it runs the histories): 0x100-byte regions, every region whose
     number is 3 mod 8 fails, the byte at address [a] of space [as] is
-    (a*13 + as*3 + 1) mod 256.  Defined here — not borrowed from another
+    (a*13 + as*3 + 1) mod 256 — so the same address read through another
+    address space gives different bytes.  Defined here — not borrowed from another
     engine — so that it changes only together with the driver. *)
 Fixpoint cb_bytes (v : N) (n : nat) : list byte :=
   match n with
